@@ -4,6 +4,7 @@ import (
 	"fmt"
 	"go/types"
 	"sort"
+	"strings"
 
 	"golang.org/x/tools/go/ssa"
 )
@@ -82,30 +83,128 @@ func (vc *VC) cutLoop(f *Frame, l *Loop, n *Node) {
 			newVals[p.Comment] = nv
 		}
 	}
-	eff := vc.eng.loopEffects(l)
-	keys := make([]string, 0, len(eff))
-	for k := range eff {
-		keys = append(keys, k)
-	}
-	sort.Strings(keys)
-	for _, k := range keys {
-		if k == "next" {
-			nn := vc.fresh(stateSorts[k], "next")
-			vc.assume(and(app("bvuge", nn, n.St.H[k]), app("bvult", nn, bvLit(refBits, 1<<30))))
-			n.St.H[k] = nn
-			continue
+	if l.Ann.HasMod {
+		// declared loop frame: havoc exactly the declared locations, the locals
+		// the body touches and allocation; every iteration is checked against it
+		targets := vc.evalModClauses(l.Ann.Mod, env)
+		targets = append(targets, vc.loopLocals(f, l, n)...)
+		entryNext := n.St.H["next"]
+		vc.havocTargets(n.St, targets)
+		nn := vc.fresh(stateSorts["next"], "next")
+		vc.assume(and(app("bvuge", nn, n.St.H["next"]), app("bvult", nn, bvLit(refBits, 1<<30))))
+		n.St.H["next"] = nn
+		head := n.St.clone()
+		head.H["next"] = entryNext
+		if f.loopFrames == nil {
+			f.loopFrames = map[string]*loopFrame{}
 		}
-		n.St.H[k] = vc.fresh(stateSorts[k], "loop_"+k)
+		f.loopFrames[loopKey(l, n)] = &loopFrame{head: head, targets: targets}
+	} else {
+		eff := vc.eng.loopEffects(l)
+		keys := make([]string, 0, len(eff))
+		for k := range eff {
+			keys = append(keys, k)
+		}
+		sort.Strings(keys)
+		for _, k := range keys {
+			if k == "next" {
+				nn := vc.fresh(stateSorts[k], "next")
+				vc.assume(and(app("bvuge", nn, n.St.H[k]), app("bvult", nn, bvLit(refBits, 1<<30))))
+				n.St.H[k] = nn
+				continue
+			}
+			n.St.H[k] = vc.fresh(stateSorts[k], "loop_"+k)
+		}
 	}
 	env2 := f.invEnv(l, newVals, n.St)
 	for _, c := range l.Ann.Inv {
-		vc.assume(implies(n.Reach, env2.evalBool(c.E)))
+		env2.assumeClause(n.Reach, c.E)
 	}
 	vc.cover("cover-loop", fmt.Sprintf("loop %d of %s: invariant satisfiable at an arbitrary iteration", l.Ordinal, f.fn.Name()), n.Reach)
 }
 
+type loopFrame struct {
+	head    *State
+	targets []modTarget
+}
+
+func loopKey(l *Loop, n *Node) string {
+	// the header instance: iteration counters of the enclosing loops
+	var sb strings.Builder
+	fmt.Fprintf(&sb, "L%d", l.Ordinal)
+	for o, it := range n.Iters {
+		if o != l {
+			fmt.Fprintf(&sb, "_%d:%d", o.Ordinal, it)
+		}
+	}
+	return sb.String()
+}
+
+// loopLocals: local variables (allocations made outside the loop) that the
+// loop body refers to are havocked as whole objects.
+func (vc *VC) loopLocals(f *Frame, l *Loop, n *Node) []modTarget {
+	var out []modTarget
+	seen := map[*ssa.Alloc]bool{}
+	for b := range l.Body {
+		for _, in := range b.Instrs {
+			for _, op := range in.Operands(nil) {
+				a, ok := (*op).(*ssa.Alloc)
+				if !ok || seen[a] || l.Body[a.Block()] {
+					continue
+				}
+				seen[a] = true
+				ptr := f.get(a, n)
+				et := a.Type().Underlying().(*types.Pointer).Elem()
+				ss := map[Sort]bool{}
+				lay := layout(et)
+				if arr, ok := et.Underlying().(*types.Array); ok {
+					lay = layout(arr.Elem())
+				}
+				for _, s := range lay {
+					if !ss[s] {
+						ss[s] = true
+						out = append(out, modTarget{kind: "object", heap: s.heap(), sort: s, ref: ptr.C[0], what: "local " + a.Comment})
+					}
+				}
+			}
+		}
+	}
+	sort.Slice(out, func(i, j int) bool { return out[i].what+out[i].heap < out[j].what+out[j].heap })
+	return out
+}
+
 // checkInvariant is called on a back edge of an invariant-annotated loop.
 func (vc *VC) checkInvariant(f *Frame, l *Loop, from *Node, predIdx int, cond, what string) {
+	if l.Ann.HasMod {
+		// per-iteration frame check against the loop's modifies clause
+		for _, lf := range f.loopFrames {
+			_ = lf
+		}
+		var hn *Node
+		for _, cand := range f.g.Order {
+			if cand.B == l.Header {
+				same := true
+				for o, it := range cand.Iters {
+					if o != l && from.Iters[o] != it {
+						same = false
+					}
+				}
+				if same {
+					hn = cand
+				}
+			}
+		}
+		if hn != nil {
+			if lf := f.loopFrames[loopKey(l, hn)]; lf != nil {
+				goals := vc.frameGoals(lf.head, from.St, lf.targets)
+				for _, h := range stateKeys {
+					if g, ok := goals[h]; ok {
+						vc.oblige("loop-frame", fmt.Sprintf("loop %d of %s modifies %s outside its 'loop modifies' clause", l.Ordinal, f.fn.Name(), h), cond, g, "@loop", "@frame")
+					}
+				}
+			}
+		}
+	}
 	vals := map[string]*SV{}
 	for _, p := range headerPhis(l) {
 		if p.Comment != "" {
